@@ -27,6 +27,7 @@ def norm_key(k):
     return k[:-3] if k.endswith('net') and len(k) >= 3 else k
 
 
+ROUTES = ['kwarg', 'pars', 'spec', 'update']     # keyword, pars= dict, dict specification inside ss.Sim, module.pars.update before init
 NET_POOL = ['random', 'erdosrenyi', 'disk', 'mf', 'maternal', 'msm']
 BEHAVIOUR_NETS = ('random', 'erdosrenyi')            # dense enough that a high beta certainly transmits
 KEY_SPELLINGS = [lambda n: n, lambda n: n + 'net', lambda n: n.upper(), lambda n: n.capitalize() + 'Net']
@@ -84,13 +85,8 @@ def build_sim(dis_name, nets, beta, route, n_agents=60, dur=2, seed=1, init_prev
     elif route == 'spec': dis = dict(type=name, beta=beta, init_prev=init_prev)
     elif route == 'update':
         dis = cls(init_prev=init_prev); dis.pars.update(beta=beta)
-    elif route == 'sim-update':
-        dis = cls(init_prev=init_prev)
     else: raise ValueError(route)
     sim = ss.Sim(n_agents=n_agents, dur=dur, verbose=0, rand_seed=seed, diseases=dis, networks=[dict(type=n) for n in nets])
-    if route == 'sim-update':
-        sim.pars.validate()
-        sim.pars.update(diseases={list(sim.pars.diseases.keys())[0]: dict(beta=beta)})
     return sim
 
 
@@ -188,7 +184,7 @@ def round3_cases(ctx, ask):
     for cls in classes:
         for i in range(n_per):
             nets, spec, fam = gen_beta_case(ctx.rng, 10 + ctx.rng.randint(0, 800))
-            route = ctx.rng.choice(['kwarg', 'pars', 'spec', 'update', 'sim-update'])
+            route = ctx.rng.choice(ROUTES)
             impl = live_betamap(cls.__name__, nets, spec, route)
             fams.add(fam)
 
@@ -522,7 +518,7 @@ def round3_search(ctx, targets):
     others = [c for c in classes if c not in always]
     ctx.rng.shuffle(others)
     for dis in always + others[:ctx.budget(2, len(others))]:
-        for route in ['kwarg', 'pars', 'spec', 'update', 'sim-update']:
+        for route in ROUTES:
             for fam_i in range(ctx.budget(3, 12)):
                 nets, spec, fam = gen_beta_case(ctx.rng, 10 + ctx.rng.randint(0, 800))
                 if spec[0] != 'dict' or fam == 'alias': continue
